@@ -50,7 +50,8 @@ def _sink(world, node, durs, batches):
 
     def consume(x):
         i = len(batches)
-        rec = {"x": list(x) if isinstance(x, list) else x, "t": loop.now, "done": None}
+        world.seq = getattr(world, "seq", 0) + 1
+        rec = {"x": list(x) if isinstance(x, list) else x, "t": loop.now, "done": None, "seq": world.seq}
         batches.append(rec)
         d = durs[i] if (durs is not None and i < len(durs)) else 0
         fut = loop.create_future()
@@ -102,6 +103,7 @@ def body(shard, *v):
         loop.run_ready()
         t = T0
         arr = {}
+        arr_seq = {}
         items = []
         for j in range(k):
             t = t + gaps[j]
@@ -109,6 +111,8 @@ def body(shard, *v):
             x = (keys[j] if keys is not None else 0, j)
             arr[j] = loop.now
             items.append(x)
+            world.seq = getattr(world, "seq", 0) + 1
+            arr_seq[j] = world.seq
             world.emit(src, x)
         # let every timer fire until everything pushed has been emitted (bounded)
         for _ in range(4 * k + 6):
@@ -153,6 +157,40 @@ def body(shard, *v):
             # timed_window_unique: batch emitted at T contains what arrived since the previous
             # emission, de-duplicated by key with the keep rule, in (kept) arrival order
             _check_unique(vd, batches, items, arr, shard.get("keep", "first"))
+        # ---- exact membership (timed_window, timed_window_unique): element j belongs to the first
+        # batch emitted after its arrival (in event order) - no other batch, and no later one
+        if kind in ("timed_window", "timed_window_unique"):
+            exp = [[] for _ in batches]
+            unassigned = 0
+            for j in range(k):
+                home = None
+                for bi, b in enumerate(batches):
+                    if b["seq"] > arr_seq[j]:
+                        home = bi
+                        break
+                if home is None:
+                    unassigned += 1
+                else:
+                    exp[home].append(items[j])
+            if unassigned:
+                vd.add("element-never-emitted@%s" % name)
+            for bi, b in enumerate(batches):
+                want = exp[bi]
+                if kind == "timed_window_unique":
+                    keep = shard.get("keep", "first")
+                    ded = []
+                    for x in want:
+                        same = [y for y in ded if y[0] == x[0]]
+                        if keep == "first":
+                            if not same:
+                                ded.append(x)
+                        else:
+                            for y in same:
+                                ded.remove(y)
+                            ded.append(x)
+                    want = ded
+                if list(b["x"]) != want:
+                    vd.add("wrong-batch-contents@%s" % name)
         # ---- deadline
         for b in batches:
             for x in b["x"]:
